@@ -120,6 +120,13 @@ def drive(sc):
   return {"streams": cls, "events": events, "scenario": list(sc)}
 
 
+def hung(sc):
+  """the scenario never returned even under the step budget: the loop hangs"""
+  la = sc[5]
+  return {"streams": {"A": ["ok"] * la, "B": ["ok", "ok"]}, "scenario": list(sc),
+          "events": [{"e": "feed", "c": "A", "k": 1, "i": 0}, {"e": "diverged", "c": "A", "k": 0, "i": 0}]}
+
+
 def scenarios(quick, rnd):
   from harness import c10_loops as L
   out = []
@@ -158,7 +165,7 @@ def run(ctx):
   ctx.add_model("FramingFaults MC_faults", r)
   rnd = random.Random(ctx.seed)
   scs = scenarios(quick, rnd)
-  traces = [t for t in core.run_driver("props.C10:drive", scs, chunk=25) if t is not None]
+  traces = [t for t in core.run_driver_guarded("props.C10:drive", scs, hung, chunk=25) if t is not None]
   # negative controls: a clean connection that gets closed; a dead loop
   ok_tr = [t for t in traces if t["scenario"][2] == "OK"]
   bad1 = copy.deepcopy(ok_tr[0])
